@@ -56,6 +56,11 @@ class Spec:
             if not ev["ms"]:
                 return False, "ValueError"
             return self.ok_sel(ev["ms"]) is not None, "RegRefError"
+        if e == "use" and ev.get("all"):
+            # All(op) | reg: the whole selection is tested first; an empty selection is accepted and does nothing
+            if not ev["ms"]:
+                return True, None
+            return self.ok_sel(ev["ms"]) is not None, "RegRefError"
         if e == "use":
             if len(ev["ms"]) not in (1, 2):
                 return False, "ValueError"
@@ -72,7 +77,11 @@ class Spec:
             first = len(self.rows)
             self.rows += [0] * ev["n"]
             return list(range(first, first + ev["n"]))
-        idx = self.ok_sel(ev["ms"])
+        idx = self.ok_sel(ev["ms"]) or []
+        if e == "use" and ev.get("all"):
+            for i in idx:
+                self.rows[i] += ev["k"]
+            return None
         if e == "del":
             for i in idx:
                 self.rows[i] = None
@@ -153,6 +162,8 @@ def gen_history(rng, backend, big=False, multi=True):
             dead = [i for i, d in enumerate(spec.rows) if d is None]
             x = rng.random()
             first_new = (seg == 0 and st == 0 and rng.random() < 0.5)
+            if not live and not first_new and 0.16 <= x < 0.70:
+                x = rng.choice([0.0, 0.8])        # nothing to act on: create modes or try a rejected selection
             if first_new or x < 0.16:
                 room = cap - len(live)
                 if room <= 0:
@@ -162,17 +173,29 @@ def gen_history(rng, backend, big=False, multi=True):
                     n = 0
                 ev = {"e": "new", "n": n}
             elif x < 0.30:
-                if len(live) <= 1:
+                # now and then every mode is deleted
+                kmax = len(live) if rng.random() < 0.25 else len(live) - 1
+                if kmax <= 0:
                     continue
-                k = min(len(live) - 1, rng.choice([1, 1, 1, 2, 2, 3]))
+                k = min(kmax, rng.choice([1, 1, 1, 2, 2, 3]))
                 ev = {"e": "del", "ms": [_ref(rng, i) for i in rng.sample(live, k)]}
+            elif x < 0.60 and rng.random() < 0.12:
+                # All(Xgate) on several modes (now and then on none, or on a rejected selection)
+                z = rng.random()
+                if z < 0.12:
+                    ev = {"e": "use", "all": True, "ms": [], "k": 1, "deps": []}
+                elif z < 0.3:
+                    kind, refs = _bad_refs(rng, spec, rng.choice([2, 3]))
+                    ev = {"e": "use", "all": True, "ms": refs, "k": 1, "deps": [], "bad": kind}
+                else:
+                    sel = rng.sample(live, rng.randint(1, min(3, len(live))))
+                    k = rng.choice([-1, 1, 2])
+                    if fock and any(abs(spec.rows[i] + k) > MAXU for i in sel):
+                        k = 0
+                    ev = {"e": "use", "all": True, "ms": [_ref(rng, i) for i in sel], "k": k, "deps": []}
             elif x < 0.60:
                 if len(live) >= 2 and rng.random() < 0.35:
                     a, b = rng.sample(live, 2)
-                    if backend == "fock" and a > b:
-                        # pure Fock registers: two-mode gates whose second target is tensor axis 0 are a
-                        # separate (C01/C05) finding of Circuit.apply_twomode_gate; keep targets ascending
-                        a, b = b, a
                     ev = {"e": "use", "ms": [_ref(rng, a), _ref(rng, b)], "k": 0, "deps": []}
                 else:
                     i = rng.choice(live)
@@ -185,19 +208,17 @@ def gen_history(rng, backend, big=False, multi=True):
                         deps = [{"o": m} for m in rng.sample(okdeps, min(len(okdeps), rng.choice([1, 1, 2])))]
                     ev = {"e": "use", "ms": [_ref(rng, i)], "k": k, "deps": deps}
             elif x < 0.70:
-                if backend == "bosonic" and len(spec.rows) < 2:
-                    continue      # bosonic post-selection on a one-mode circuit fails in reassemble_multi (not C08)
                 k = 1 if (not fock or rng.random() < 0.6) else min(len(live), 2)
                 ev = {"e": "meas", "ms": [_ref(rng, i) for i in rng.sample(live, k)]}
             elif x < 0.93:
                 what = rng.choice(["use", "use", "del", "del", "meas", "use-dep"])
+                if what == "use-dep" and not live:
+                    what = "del"
                 if what == "use-dep":
                     # a dependency on a mode that was measured in this segment and deleted afterwards, or on a
                     # foreign RegRef
                     md = [m for m in measured if spec.rows[m] is None]
-                    # (foreign RegRefs get an index no mode of the history ever has: a MeasuredParameter of the
-                    # same name as one in use would hit the symbol-cache finding of C10)
-                    dd = [{"o": rng.choice(md)}] if md and rng.random() < 0.8 else [{"f": [50 + rng.randint(0, 9), True]}]
+                    dd = [{"o": rng.choice(md)}] if md and rng.random() < 0.8 else [{"f": [rng.choice(live + [len(spec.rows) + 3]), True]}]
                     ev = {"e": "use", "ms": [{"o": rng.choice(live)}], "k": 1, "deps": dd, "bad": "dep"}
                 else:
                     kind, refs = _bad_refs(rng, spec, rng.choice([1, 1, 2, 2, 3]) if what != "use" else rng.choice([1, 2]))
@@ -241,10 +262,11 @@ def gen_history(rng, backend, big=False, multi=True):
         if len(live) >= 2:
             probe.append({"t": "del", "ms": rng.sample(live, rng.choice([1, 2]))})
         modes = []
-        if backend != "bosonic":
+        if live:
             for _ in range(2):
                 k = rng.randint(1, len(live))
-                modes.append(rng.sample(range(len(live)), k))
+                # fock / gaussian: positions in the list of active modes; bosonic: mode indices
+                modes.append(rng.sample(live if backend == "bosonic" else range(len(live)), k))
         evs.append({"e": "end", "probe": probe, "modes": modes})
         ran_once = True
         measured = set()
@@ -253,7 +275,15 @@ def gen_history(rng, backend, big=False, multi=True):
         if seg == nseg - 1:
             break
         y = rng.random()
-        if y < 0.12:
+        if y > 0.92:
+            # eng.reset() while the user goes on with Program(prev): runs on a new simulator if the register has no
+            # holes, is refused otherwise
+            evs.append({"e": "resetkeep"})
+            if None in spec.rows:
+                evs.append({"e": "end", "probe": [], "modes": [], "mismatch": True})
+                break
+            spec = Spec(len(spec.rows))
+        elif y < 0.12:
             n = rng.choice([1, 2, 3])
             evs.append({"e": "reset", "n": n, "probe": [{"t": "gate", "ms": [m]} for m in range(4)], "modes": []})
             spec = Spec(n)
@@ -365,6 +395,27 @@ def run_real(sf, hist):
     out = []
     last_run = None
     pars = {}
+    op_cache = {}          # equal operations are ONE shared instance, within and across the programs of a history
+
+    def shared(key, ctor):
+        if key not in op_cache:
+            op_cache[key] = ctor()
+        return op_cache[key]
+
+    watched = []           # (program, snapshot of reg_refs) of every program that was run: must never change again
+    init_snap = [[int(r.ind), bool(r.active)] for r in prog.init_reg_refs.values()]
+    first = None           # (index of the first successful end, its program)
+
+    def alias_check():
+        bad = []
+        for j, (pw, snap) in enumerate(watched):
+            now = [[int(r.ind), bool(r.active)] for r in pw.reg_refs.values()]
+            if now != snap:
+                bad.append(f"program {j} (already run): reg_refs {snap} -> {now}")
+        now = [[int(r.ind), bool(r.active)] for r in prog.init_reg_refs.values()]
+        if now != init_snap:
+            bad.append(f"init_reg_refs of the program under construction: {init_snap} -> {now}")
+        return bad
     for ev in hist["events"]:
         e = ev["e"]
         if e in ("new", "del", "use", "meas"):
@@ -380,22 +431,27 @@ def run_real(sf, hist):
                             ops.Del | reg
                         elif e == "meas":
                             if len(reg) == 1:
-                                rr = ops.MeasureHomodyne(0.0, select=UNIT) | reg
+                                rr = shared("MH", lambda: ops.MeasureHomodyne(0.0, select=UNIT)) | reg
                                 pars[(id(prog), rr[0].ind)] = rr[0].par
                             else:
-                                ops.MeasureFock() | reg
+                                shared("MF", ops.MeasureFock) | reg
                         else:
                             par = UNIT * ev["k"]
                             for d in ev.get("deps", []):
                                 dp = pars.get((id(prog), d.get("o")))
                                 par = par * (4 * (dp if dp is not None else _mk_ref(prog, d).par))
-                            if len(reg) == 1:
-                                ops.Xgate(par) | reg
+                            plain = not ev.get("deps")
+                            if ev.get("all"):
+                                ops.All(shared(("X", ev["k"]), lambda: ops.Xgate(par))) | reg
+                            elif len(reg) == 1:
+                                (shared(("X", ev["k"]), lambda: ops.Xgate(par)) if plain else ops.Xgate(par)) | reg
+                            elif plain:
+                                shared("BS", lambda: ops.BSgate(math.pi / 2, 0.0)) | reg
                             else:
-                                ops.BSgate(math.pi / 2 if not ev.get("deps") else par / UNIT * math.pi / 2, 0.0) | reg
+                                ops.BSgate(par / UNIT * math.pi / 2, 0.0) | reg
             except Exception as ex:  # noqa: BLE001
                 r = type(ex).__name__
-            out.append(dict(r=r, **prog_obs(prog), **extra))
+            out.append(dict(r=r, alias=alias_check(), **prog_obs(prog), **extra))
         elif e == "end":
             ran_reg = [int(x.ind) for x in prog.register]
             try:
@@ -417,9 +473,27 @@ def run_real(sf, hist):
                 except Exception as ex:  # noqa: BLE001
                     sm.append({"err": type(ex).__name__, "msg": str(ex)[:200]})
             o["smodes"] = sm
+            # observing must not change anything: the same questions again
+            try:
+                o["again"] = dict(gm=[int(x) for x in eng.backend.get_modes()], state=state_obs(eng.backend.state(), fock))
+            except Exception as ex:  # noqa: BLE001
+                o["again"] = {"err": type(ex).__name__, "msg": str(ex)[:200]}
+            # measurement results are filed under the index of the measured mode
+            try:
+                sd = res.samples_dict or {}
+                o["samples"] = {int(k): [float(np.real(np.ravel(v[-1])[0])), len(v)] for k, v in sd.items()}
+                o["samples_shape"] = list(np.shape(res.samples))
+                o["skeys"] = sorted(int(k) for k in sd)
+            except Exception as ex:  # noqa: BLE001
+                o["samples"] = {"err": type(ex).__name__, "msg": str(ex)[:200]}
             last_run = prog
+            watched.append((prog, [[int(r.ind), bool(r.active)] for r in prog.reg_refs.values()]))
+            if first is None:
+                first = (len(out), prog)
             prog = sf.Program(prog)
+            init_snap = [[int(r.ind), bool(r.active)] for r in prog.init_reg_refs.values()]
             o.update(prog_obs(prog))
+            o["alias"] = alias_check()
             out.append(o)
         elif e == "reset":
             eng.reset()
@@ -432,11 +506,22 @@ def run_real(sf, hist):
             o["probe"] = [_probe(eng, pr) for pr in ev.get("probe", [])]
             o["smodes"] = []
             prog = sf.Program(ev["n"])
+            init_snap = [[int(r.ind), bool(r.active)] for r in prog.init_reg_refs.values()]
             o.update(prog_obs(prog))
+            out.append(o)
+        elif e == "resetkeep":
+            eng.reset()
+            o = dict(r="ok", **prog_obs(prog))
+            o.update(backend_obs(eng, fock))
+            try:
+                o["state"] = state_obs(eng.backend.state(), fock)
+            except Exception as ex:  # noqa: BLE001
+                o["state"] = {"err": type(ex).__name__, "msg": str(ex)[:200]}
             out.append(o)
         elif e == "fresh":
             try:
                 prog = sf.Program(ev["n"])
+                init_snap = [[int(r.ind), bool(r.active)] for r in prog.init_reg_refs.values()]
                 out.append(dict(r="ok", **prog_obs(prog)))
             except Exception as ex:  # noqa: BLE001
                 out.append(dict(r=type(ex).__name__, **prog_obs(prog)))
@@ -451,4 +536,12 @@ def run_real(sf, hist):
                     o[key] = type(ex).__name__
             o["reg_after"] = [int(x.ind) for x in last_run.register]
             out.append(o)
+    # the first program of the history once more, on a new engine: same modes, same state
+    if first is not None and first[0] < len(out):
+        try:
+            eng2 = sf.Engine("fock" if fock else be, backend_options=opts)
+            res2 = eng2.run(first[1])
+            out[first[0]]["rerun"] = dict(gm=[int(x) for x in eng2.backend.get_modes()], state=state_obs(res2.state, fock))
+        except Exception as ex:  # noqa: BLE001
+            out[first[0]]["rerun"] = {"err": type(ex).__name__, "msg": str(ex)[:200]}
     return out
